@@ -109,10 +109,16 @@ pub struct In {
     pub lat_ms: u16,
     pub dist: u16,
 }
+/// words 0-4 are the five fixed ones; larger indexes give up to 250 further distinct keys (hash
+/// table growth, long collision chains in the tee branch whose hash is the word length)
+fn word_of(w: u8) -> String {
+    if w < 5 { WORDS[w as usize].to_string() } else { format!("k{w}") }
+}
+
 impl In {
     fn item(&self) -> Item {
         Item {
-            word: WORDS[self.word as usize % 5].to_string(),
+            word: word_of(self.word),
             n: self.n % 3,
             total: self.total as u64,
             last: self.last,
@@ -121,7 +127,7 @@ impl In {
         }
     }
     fn key(&self) -> (String, u8) {
-        (WORDS[self.word as usize % 5].to_string(), self.n % 3)
+        (word_of(self.word), self.n % 3)
     }
 }
 
@@ -703,7 +709,7 @@ pub fn check_worker_burst(case: &BurstCase) -> CaseResult {
         .map(|i| {
             let x = (i as u32).wrapping_mul(2654435761).wrapping_add(case.seed);
             In {
-                word: (x % 5) as u8,
+                word: (x % 200) as u8,
                 n: ((x >> 8) % 3) as u8,
                 total: x >> 12,
                 last: i as u32,
@@ -852,7 +858,7 @@ pub fn check_embedded(case: &EmbeddedCase) -> CaseResult {
 }
 
 fn arb_in() -> impl Strategy<Value = In> {
-    (0u8..5, 0u8..3, prop_oneof![Just(0u32), 1u32..100, any::<u32>()], any::<u32>(), 0u16..2000, 0u16..50).prop_map(
+    (prop_oneof![5 => 0u8..5, 2 => 5u8..40, 1 => 5u8..=255], 0u8..3, prop_oneof![Just(0u32), 1u32..100, any::<u32>()], any::<u32>(), 0u16..2000, 0u16..50).prop_map(
         |(word, n, total, last, lat_ms, dist)| In {
             word,
             n,
@@ -912,7 +918,7 @@ pub fn run(ctx: &mut Ctx) {
     ctx.explore(
         SubCfg::new(
             "c10-worker-burst",
-            "WorkerSink whose worker thread is stalled inside its first merge (harness-owned probe) while 1-4 producer threads send 2-20 000 entries over 15 keys; the stall is then released and flush().await taken. Oracle: per key the emitted aggregates sum to the inputs with the same number of observations - a send never drops an entry, however far the producers are ahead of the worker. Non-trivial = every case",
+            "WorkerSink whose worker thread is stalled inside its first merge (harness-owned probe) while 1-4 producer threads send 2-20 000 entries over up to 600 keys; the stall is then released and flush().await taken. Oracle: per key the emitted aggregates sum to the inputs with the same number of observations - a send never drops an entry, however far the producers are ahead of the worker. Non-trivial = every case",
             if q { 12 } else { 200 },
         )
         .threads(ctx.tier.pick(4, 8))
